@@ -117,7 +117,10 @@ pub fn having(h: &J) -> String {
 }
 
 /// the SQL text of a statement of Sem.tla; `jpath` = file of the joined table u
-pub fn statement(q: &J, jpath: &str) -> String {
+pub fn statement(q: &J, jpath: &str) -> String { statement_for(q, jpath, "plain") }
+
+/// `tdef` = the table variant: "numjoin" joins ON t.v = u.w (INT against REAL)
+pub fn statement_for(q: &J, jpath: &str, tdef: &str) -> String {
     let mut s = String::from("SELECT ");
     if q["distinct"].as_bool().unwrap() { s += "DISTINCT "; }
     if q["kind"] == "select" {
@@ -135,8 +138,8 @@ pub fn statement(q: &J, jpath: &str) -> String {
     }
     s += " FROM t";
     match q["join"].as_str().unwrap() {
-        "inner" => s += &format!(" INNER JOIN u::{} ON t.k = u.k", quote(jpath)),
-        "outer" => s += &format!(" OUTER JOIN u::{} ON t.k = u.k", quote(jpath)),
+        "inner" => s += &format!(" INNER JOIN u::{} ON {}", quote(jpath), if tdef == "numjoin" { "t.v = u.w" } else { "t.k = u.k" }),
+        "outer" => s += &format!(" OUTER JOIN u::{} ON {}", quote(jpath), if tdef == "numjoin" { "u.w = t.v" } else { "t.k = u.k" }),
         _ => {}
     }
     if !is_none(&q["where"]) { s += &format!(" WHERE {}", expr(&q["where"])); }
@@ -153,7 +156,7 @@ pub fn statement(q: &J, jpath: &str) -> String {
 pub fn table_defs(tdef: &str) -> String {
     let (kmod, vmod) = match tdef { "knn" => (" NOT NULL", ""), "vdef" => ("", " DEFAULT 7"), "bothnn" => (" NOT NULL", " NOT NULL"), _ => ("", "") };
     format!("CREATE TABLE t(line = 'k=([a-z]+)? v=(-?[0-9]+)?', line[1] => k TEXT{}, line[2] => v INT{});\n\
-             CREATE TABLE u(jl = 'k=([a-z]+)? v=(-?[0-9]+)?', jl[1] => k TEXT, jl[2] => w INT);", kmod, vmod)
+             CREATE TABLE u(jl = 'k=([a-z]+)? v=(-?[0-9]+)?', jl[1] => k TEXT, jl[2] => w {});", kmod, vmod, if tdef == "numjoin" { "REAL" } else { "INT" })
 }
 
 pub fn line_text(l: &J) -> String {
